@@ -42,7 +42,7 @@ def _take_block(body):
     """let out = { let mut out = (MaybeUninit::<..>::uninit(), ..); core::mem::swap(&mut out, self.outputs);
     let (A, B, ..) = out; unsafe { (A.assume_init(), B.assume_init(), ..) } };   =>   let out = self.outputs.take();
     The letters must appear in positional order in both the destructuring and the result tuple."""
-    m = re.search(r'let out =\s*\{\s*let mut out =\s*\((?:\s*MaybeUninit::<[^()]*?>::uninit\(\),?)+\s*\);\s*core::mem::swap\(&mut out, self\.outputs\);\s*let \(([A-L, ]+?),?\) = out;\s*unsafe\s*\{\s*\(((?:\s*[A-L]\.assume_init\(\),?)+)\s*\)\s*\}\s*\};', body, re.S)
+    m = re.search(r'let out =\s*\{\s*let mut out =\s*\((?:\s*MaybeUninit::<[^()]*?>::uninit\(\),?)+\s*\);\s*core::mem::swap\(&mut out, self\.outputs\);\s*let \(([A-L, ]+?),?\) =\s*out;\s*unsafe\s*\{\s*\(((?:\s*[A-L]\.assume_init\(\),?)+)\s*\)\s*\}\s*\};', body, re.S)
     if not m:
         return body, 0
     d = [x.strip() for x in m.group(1).split(',') if x.strip()]
@@ -75,7 +75,7 @@ def _ordered(letters):
 
 def _drop_destructure(body):
     # let (ref mut A, ref mut B) = self.outputs;   (letters in positional order, else lost anchor)
-    m = re.search(r'let \(((?:\s*ref mut [A-L],?)+)\s*\) = self\.outputs;', body)
+    m = re.search(r'let \(((?:\s*ref mut [A-L],?)+)\s*\)\s*=\s*self\.outputs;', body)
     if not m:
         return body, 0
     ls = re.findall(r'ref mut ([A-L])', m.group(1))
@@ -106,7 +106,7 @@ def _mdrop_field(body):
 
 def _ctor_destructure(body):
     # let (A, B): (A, B) = self;
-    m = re.search(r'let \(([A-L, ]+?),?\)\s*:\s*\(([A-L, ]+?),?\) = self;', body)
+    m = re.search(r'let \(([A-L, ]+?),?\)\s*:\s*\(([A-L, ]+?),?\)\s*=\s*self;', body)
     if not m:
         return body, 0
     a = [x.strip() for x in m.group(1).split(',') if x.strip()]
